@@ -197,6 +197,8 @@ pub struct Sched {
     teardown: Cell<bool>,
     inside: Cell<Option<usize>>,
     last_probe: Cell<Option<(usize, u32)>>,
+    /// epochs of the reads of the probe's state since its last write, per thread
+    probe_reads: RefCell<Vec<u32>>,
     stats: RefCell<SchedStats>,
     freeze: Option<(usize, usize)>,
     track_hb: bool,
@@ -235,6 +237,7 @@ impl Sched {
             teardown: Cell::new(false),
             inside: Cell::new(None),
             last_probe: Cell::new(None),
+            probe_reads: RefCell::new(vec![0; n + 1]),
             stats: RefCell::new(stats),
             freeze,
             track_hb: true,
@@ -445,11 +448,47 @@ impl Hooks for Sched {
                     }
                 }
             }
+            // a write must also be ordered after every read of the state since the previous write
+            {
+                let mut reads = self.probe_reads.borrow_mut();
+                for (rt, re) in reads.iter_mut().enumerate() {
+                    if rt != t && *re != 0 && clocks[t][rt] < *re && self.stats.borrow().race.is_none() {
+                        self.stats.borrow_mut().race = Some(format!(
+                            "the wrapped iterator's state was read (size_hint) on thread {} and its next() then ran on thread {} without a happens-before edge between the two",
+                            rt, t
+                        ));
+                    }
+                    *re = 0;
+                }
+            }
             self.last_probe.set(Some((t, clocks[t][t])));
             clocks[t][t] += 1;
         }
         self.event();
         self.inside.set(None);
+    }
+
+    fn probe_read(&self) {
+        if self.teardown.get() {
+            return;
+        }
+        let t = self.cur.get();
+        if let Some(other) = self.inside.get() {
+            if other != t {
+                self.stats.borrow_mut().overlap = true;
+            }
+        }
+        let mut clocks = self.clocks.borrow_mut();
+        if let Some((pt, epoch)) = self.last_probe.get() {
+            if pt != t && clocks[t][pt] < epoch && self.stats.borrow().race.is_none() {
+                self.stats.borrow_mut().race = Some(format!(
+                    "the wrapped iterator's next() ran on thread {} and its state was then read (size_hint) on thread {} without a happens-before edge between the two",
+                    pt, t
+                ));
+            }
+        }
+        self.probe_reads.borrow_mut()[t] = clocks[t][t];
+        clocks[t][t] += 1;
     }
 
     fn op_begin(&self, tid: usize) {
